@@ -19,7 +19,7 @@ package dns
 //@   writes msg
 
 // digest input: [request MAC] message [TSIG variables | timers]
-//@ func tsigBuffer [C11]
+//@ func tsigBuffer [C11 C15]
 //@   requires rr != nil && len(msgbuf) >= 12
 //@   assert at "if requestMAC != @1" id: msgbuf[0] == rr.OrigId / 256 && msgbuf[1] == rr.OrigId % 256
 //@   assert at "n, err := packMacWire(m, buf)" macvars: m.MACSize == (len(requestMAC) / 2) % 65536 && m.MAC == requestMAC
